@@ -536,7 +536,8 @@ def _ops(kind, chunk_size, depth):
 @st.composite
 def _case(draw, kind):
     chunk_size = draw(st.sampled_from([1, 1, 2, 2, 3, 3, 4, 5, 8, None]))
-    data = draw(st.lists(st.sampled_from([b'a', b'b', b'-', b'\n', b'ab', b'--', b'-a', b'a-b', b'--b', b'-a-', b'b--a', b'a--']), max_size=16).map(b''.join))
+    data = draw(st.lists(st.sampled_from([b'a', b'b', b'-', b'\n', b'ab', b'--', b'-a', b'a-b', b'--b', b'-a-', b'b--a', b'a--', b'\r', b'\r\n', b'\x0b',
+                                         b'\x85', b'\x00\xff']), max_size=16).map(b''.join))
     rep = draw(st.sampled_from([1, 1, 1, 1, 1, 1, 2, 40]))
     data = data * rep
     if kind == 'sync':
@@ -635,6 +636,42 @@ class SyncStraddle(Suite):
     def run(self, case):
         run_sync(case)
         return classify(case, 'sync')
+
+    confirm_hang = staticmethod(confirm_hang(run_sync))
+
+
+class SyncLines(Suite):
+    """Line reads over bytes that LOOK like line ends elsewhere: all data strings of length <= 5 (quick; <= 6 thorough)
+    over {a, LF, CR, VT, NEL 0x85, FS 0x1c} x chunk sizes 1, 2, 3, 8 x line-oriented histories (readline, sized readline,
+    readlines, a read first).  For a byte reader only LF ends a line: the flat-buffer model decides."""
+
+    name = 'sync_lines'
+    exhaustive = True
+    budget = {'quick': 1, 'thorough': 1}
+    case_timeout = 20
+
+    def cases(self, tier):
+        hists = [
+            [['readline', -1], ['readline', -1], ['read', -1]],
+            [['read', 1], ['readline', -1], ['readline', -1]],
+            [['readlines', -1]],
+            [['readline', 2], ['readline', -1], ['readlines', -1]],
+            [['peek', 3], ['readline', -1], ['read', -1]],
+        ]
+        n_max = 5 if tier == 'quick' else 6
+        for n in range(1, n_max + 1):
+            for t in itertools.product(b'a\n\r\x0b\x85\x1c', repeat=n):
+                data = bytes(t)
+                if not any(c in data for c in b'\r\x0b\x85\x1c'):
+                    continue
+                for cs in (1, 2, 3, 8):
+                    for h in hists:
+                        yield {'data': data, 'chunk_size': cs, 'chunks': [cs], 'maxlen_delta': 0, 'ops': h}
+
+    def run(self, case):
+        run_sync(case)
+        info = classify(case, 'sync')
+        return Info(b'\r' in case['data'] and b'\r\n' not in case['data'], info.labels + ('line_like_bytes',))
 
     confirm_hang = staticmethod(confirm_hang(run_sync))
 
@@ -747,5 +784,5 @@ class AsyncFuzz(Suite):
     confirm_hang = staticmethod(confirm_hang(run_async))
 
 
-SUITES = [SyncEnum(), AsyncEnum(), SyncRandom(), AsyncRandom(), SyncStraddle(), AsyncStraddle(), SyncFuzz(), AsyncFuzz()]
+SUITES = [SyncEnum(), AsyncEnum(), SyncLines(), SyncRandom(), AsyncRandom(), SyncStraddle(), AsyncStraddle(), SyncFuzz(), AsyncFuzz()]
 KNOWN = {}
